@@ -399,6 +399,7 @@ where
                 z,
                 z_d,
                 z_b,
+                r_eval,
             });
         }
 
@@ -419,7 +420,7 @@ where
         vk: &Self::VerifierKey,
         commitments: impl IntoIterator<Item = &'a LabeledCommitment<Self::Commitment>>,
         point: &'a P::Point,
-        _values: impl IntoIterator<Item = G::ScalarField>,
+        values: impl IntoIterator<Item = G::ScalarField>,
         proof: &Self::Proof,
         sponge: &mut impl CryptographicSponge,
         _rng: Option<&mut dyn RngCore>,
@@ -448,15 +449,17 @@ where
         let r = tensor_prime(point_upper);
 
         let commitments: Vec<_> = commitments.into_iter().collect();
-        if proof.len() != commitments.len() {
+        let values: Vec<_> = values.into_iter().collect();
+        if proof.len() != commitments.len() || values.len() != commitments.len() {
             return Err(Error::IncorrectInputLength(format!(
-                "Expected one proof per commitment: {} commitments, {} proofs",
+                "Expected one value and one proof per commitment: {} commitments, {} values, {} proofs",
                 commitments.len(),
+                values.len(),
                 proof.len()
             )));
         }
 
-        for (com, h_proof) in commitments.into_iter().zip(proof.iter()) {
+        for ((com, value), h_proof) in commitments.into_iter().zip(values).zip(proof.iter()) {
             let row_coms = &com.commitment().row_coms;
 
             // extract each field from h_proof
@@ -467,7 +470,13 @@ where
                 z,
                 z_d,
                 z_b,
+                r_eval,
             } = h_proof;
+
+            // The commitment to the evaluation must open to the claimed value
+            if *com_eval != (vk.com_key[0] * value + vk.h * r_eval).into() {
+                return Ok(false);
+            }
 
             if row_coms.len() != 1 << n / 2 {
                 return Err(Error::IncorrectCommitmentSize {
